@@ -73,6 +73,112 @@ def abs_window(o, body):
     return None
 
 
+def wire_semantics(prog, chk, rule):
+    from absint.lin import Lin
+    from absint.values import Seq, Struct, Enum, Num
+    from absint.models_content import content_segments, show_segments, use_registry, cell_view_id
+    from rules.agent_e2 import Run, variant_of
+    b0, b1 = Lin.var("rd8@in:data+0"), Lin.var("rd8@in:data+1")
+    for key, label in ((MT + "from_bytes", "from_bytes"), ("<stun_types::message::MessageType as std::convert::TryFrom<&[u8]>>::try_from", "try_from")):
+        body = prog.bodies.get(key)
+        if body is None:
+            chk.fail(rule, "%s not found" % label)
+            continue
+        r = Run(prog, key, names={1: "data"}, track_content=True, bool_vars=False, path_sensitive=True, byte_defs=True, max_parts=2000)
+        if r.error or not r.results:
+            chk.fail(rule, "%s|analysis" % label, body.loc(), r.error or "no return state")
+            continue
+        kinds = set()
+        for st, ret in r.results:
+            res = variant_of(prog, ret)
+            d = st.cells.get(r.it.cell_of(r.fr, 1))
+            L = d.len if isinstance(d, Seq) else None
+            sy = st.sys.copy()
+            for v_ in (b0, b1):
+                sy.add_range(v_, 0, 255)
+            problems = []
+            if res == "Ok":
+                kinds.add("Ok")
+                w = ret.v[0].get(0)
+                while isinstance(w, Struct) and len(w.f) == 1:
+                    w = w.get(next(iter(w.f)))
+                if L is None or not sy.entails_ge(L - 2):
+                    problems.append("Ok with fewer than 2 bytes possible")
+                if not sy.entails_ge(Lin.const(63) - b0):
+                    problems.append("Ok although bit 15 or bit 14 of the word may be set")
+                if not (isinstance(w, Num) and sy.entails_eq(w.e - b0.scale(256) - b1)):
+                    problems.append("the word kept is not the big-endian word in bytes 0..2 (%r)" % (w,))
+            else:
+                e = ret.v[1].get(0) if isinstance(ret, Enum) and 1 in ret.v else None
+                en = variant_of(prog, e)
+                kinds.add(en)
+                if en == "NotStun":
+                    s2 = sy.copy()
+                    s2.add_ge(Lin.const(63) - b0)
+                    if L is not None:
+                        s2.add_ge(L - 2)
+                    if not s2.bottom and s2.feasible():
+                        problems.append("NotStun is possible for a word whose top two bits are clear")
+                elif en == "Truncated":
+                    if not (L is not None and sy.entails_ge(Lin.const(1) - L)):
+                        problems.append("Truncated with 2 or more bytes possible")
+                else:
+                    problems.append("unexpected refusal %s" % en)
+            chk.ob(rule, "%s: %s" % (label, res if res == "Ok" else en), not problems, body.loc(), detail="; ".join(problems), how="E2 return state over byte variables")
+        chk.ob(rule, "%s: every word with bit 15 or 14 set is refused as NotStun, every other word is kept unchanged" % label,
+               {"Ok", "NotStun"} <= kinds and kinds <= {"Ok", "NotStun", "Truncated"}, body.loc(), detail=repr(sorted(kinds, key=str)))
+    chk.floor("from_bytes-rows", 4, 4)
+    # writers
+    wk = MT + "write_into"
+    wb = prog.bodies.get(wk)
+    if wb is None:
+        chk.fail(rule, "write_into not found")
+    else:
+        def setup(run, st):
+            it = run.it
+            dc = it.cell_of(run.fr, 2)
+            dv = st.cells.get(dc)
+            ln = dv.len if isinstance(dv, Seq) else it.fresh_num(st, 0, None, "destlen").e
+            st.sys.add_ge(ln - 2)
+            st.cells["outbuf:dest"] = Seq(ln, None, None, None, ("orig:dest", Lin.const(0)))
+            st.cells[dc] = Seq(ln, None, None, (cell_view_id(it, "outbuf:dest", ()), Lin.const(0)), None)
+        r = Run(prog, wk, track_content=True, bool_vars=False, path_sensitive=False, setup=setup, max_parts=400)
+        ok = False
+        why = r.error or "no return state"
+        if not r.error and r.results:
+            use_registry(r.it)
+            ok = True
+            for st, ret in r.results:
+                me = r.self_before(st)
+                w = me.get(0) if isinstance(me, Struct) else me
+                segs = content_segments(st, st.cells.get("outbuf:dest")) or []
+                why = show_segments(segs[:3])
+                ok = ok and len(segs) >= 1 and segs[0][0] == "be" and segs[0][1] == 2 and segs[0][2] is not None and isinstance(w, Num) and st.sys.entails_eq(segs[0][2] - w.e)
+        chk.ob(rule, "write_into: big-endian u16 of the word", bool(ok), wb.loc(), detail=why[:200], how="E2 content of the destination")
+    tk = MT + "to_bytes"
+    tb = prog.bodies.get(tk)
+    if tb is None:
+        chk.fail(rule, "to_bytes not found")
+    else:
+        r = Run(prog, tk, track_content=True, bool_vars=False, path_sensitive=False, max_parts=400)
+        ok = False
+        why = r.error or "no return state"
+        if not r.error and r.results:
+            use_registry(r.it)
+            ok = True
+            for st, ret in r.results:
+                w = st.cells.get(r.it.cell_of(r.fr, 1))
+                w = w.get(0) if isinstance(w, Struct) else w
+                segs = content_segments(st, ret) if isinstance(ret, Seq) else None
+                if segs:
+                    from absint.models_content import norm_piece
+                    segs = [norm_piece(st, x) for x in segs]       # a whole identified `be16:<number>` content is that number's bytes
+                why = show_segments(segs)
+                ok = ok and segs is not None and len(segs) == 1 and segs[0][0] == "be" and segs[0][1] == 2 and segs[0][2] is not None and isinstance(w, Num) \
+                    and st.sys.entails_eq(segs[0][2] - w.e) and st.sys.entails_eq(ret.len - 2)
+        chk.ob(rule, "to_bytes: big-endian u16 of the word", bool(ok), tb.loc(), detail=why[:200], how="E2 content of the returned vector")
+
+
 def run(prog, chk, tier):
     chk.explanation = (
         "Bit-provenance summaries (one abstract pass per function over the expression term extracted from MIR; every output bit "
@@ -143,47 +249,10 @@ def run(prog, chk, tier):
     for cname, key in CLASS_BITS.items():
         chk.ob(rule, "class(): C1C0=%d%d -> %s" % (key[0], key[1], cname), got.get(key) == cname, b.loc(), detail="got %r" % (got.get(key),))
     chk.ob(rule, "class(): the unreachable!() arm is dead (value is two bits wide)", dead_ok, b.loc())
-    # ---- wire: from_bytes / write_into / to_bytes
-    b = prog.bodies[MT + "from_bytes"]
-    wire = ("call", r"BigEndian as byteorder::ByteOrder>::read_u16$", [("param", "data")])
-    res = {}
-    for b15, b14 in itertools.product((0, 1), repeat=2):
-        def oracle(oo, t, body):
-            s = strip(oo)
-            if s.k == "bin" and s.a[0] == "Lt" and pm(s.a[1], ("call", r"slice::<impl \[u8\]>::len$", None), b):
-                return 0
-            e = BitEval(lambda x: ("w", 16) if pm(x, wire, b) else None)
-            f = e.pred(s)
-            return formula_value(f, {("w", 15): b15, ("w", 14): b14})
-        w = Walker(prog, b, oracle, lambda *a: None, track_locals={0}, mut_arg_event=False)
-        try:
-            beh = w.run()
-        except Unrecognised as e:
-            chk.fail(rule, "from_bytes|unrecognised-guard", short_span(b.term(e.bb)["span"]), str(e)[:200])
-            continue
-        sets = [strip(e[2]) for e in beh if e[0] == "set" and e[1] == 0]
-        r = sets[-1] if sets else None
-        if r is not None and pm(r, ("agg", r"Result::Err$", [("agg", r"StunParseError::NotStun$", [])]), b):
-            res[(b15, b14)] = "NotStun"
-        elif r is not None and pm(r, ("agg", r"Result::Ok$", [("agg", r"MessageType::MessageType$", [wire])]), b):
-            res[(b15, b14)] = "Ok(word unchanged)"
-        else:
-            res[(b15, b14)] = repr(r)[:80]
-    for (b15, b14), v in sorted(res.items()):
-        want = "NotStun" if (b15 or b14) else "Ok(word unchanged)"
-        chk.ob(rule, "from_bytes: bit15=%d bit14=%d -> %s" % (b15, b14, want), v == want, b.loc(), detail="got %s" % v)
-    chk.floor("from_bytes-rows", len(res), 4)
-    wb = prog.bodies[MT + "write_into"]
-    og = Origins(prog, wb)
-    calls = [(og.callee_name(t), [og.operand(a) for a in t["args"]]) for bi, t in wb.calls()]
-    ok = len(calls) == 1 and re.search(r"BigEndian as byteorder::ByteOrder>::write_u16$", calls[0][0]) and \
-        pm(calls[0][1][0], ("param", "dest"), wb) and pm(calls[0][1][1], ("field", ("param", "self"), "0"), wb)
-    chk.ob(rule, "write_into: big-endian u16 of the word", bool(ok), wb.loc(), detail=repr(calls)[:200])
-    tb = prog.bodies[MT + "to_bytes"]
-    og = Origins(prog, tb)
-    calls = [(og.callee_name(t), [og.operand(a) for a in t["args"]]) for bi, t in tb.calls() if "write_u16" in og.callee_name(t)]
-    ok = len(calls) == 1 and re.search(r"BigEndian", calls[0][0]) and pm(calls[0][1][1], ("field", ("param", "self"), "0"), tb)
-    chk.ob(rule, "to_bytes: big-endian u16 of the word", bool(ok), tb.loc())
+    # ---- wire: from_bytes / try_from / write_into / to_bytes, decided over the bytes themselves (E2: numbers read from the buffer are
+    # defined over byte variables, bytes written are read back from a content-tracked destination) - whichever reading / writing
+    # idiom the source uses
+    wire_semantics(prog, chk, rule)
     # ---- transaction ids
     rule = "transaction-id"
     FROM = "<stun_types::message::TransactionId as std::convert::From<u128>>::from"
@@ -222,36 +291,10 @@ def run(prog, chk, tier):
     # four bytes followed by the low 96 bits of the id): read off the content of the output buffer after write_into
     from rules import content_e2 as CE
     CE.header_clauses(prog, chk, {"cookie-tid"})
-    # readers
-    rd = ("call", r"BigEndian as byteorder::ByteOrder>::read_u128$",
-          [("call", r"Index<std::ops::RangeFrom<usize>> for \[u8\]>::index$", [("any",), ("agg", r"RangeFrom::RangeFrom$", [("const", 4)])])])
-    mb = prog.bodies["stun_types::message::Message::<'a>::transaction_id"]
-    mo = Origins(prog, mb).local(0)
-    chk.ob(rule, "Message::transaction_id = TransactionId::from(read_u128(data[4..]))",
-           pm(mo, ("call", r"<u128 as std::convert::Into<stun_types::message::TransactionId>>::into$", [rd]), mb)
-           and pm(strip(strip(mo).a[2][0]).a[2][0], ("call", r"index$", [("field", ("param", "self"), "data"), ("any",)]), mb), mb.loc(), detail=repr(mo)[:200])
-    hb = prog.bodies["stun_types::message::MessageHeader::from_bytes"]
-    hog = Origins(prog, hb)
-    # cookie test: (tid >> 96) as u32 != 0x2112A442  -> NotStun ; transaction_id: tid.into()
-    cookie_ok = False
-    for bi in sorted(hb.reachable()):
-        t = hb.term(bi)
-        if t["k"] == "switch":
-            s = strip(hog.operand(t["op"]))
-            if s.k == "bin" and s.a[0] in ("Ne", "Eq") and const_int(s.a[2]) == COOKIE:
-                ev = BitEval(lambda x: ("tid", 128) if pm(x, rd, hb) else None)
-                bits = ev.ev(s.a[1])
-                cookie_ok = bits == [("v", "tid", 96 + i) for i in range(32)]
-    chk.ob(rule, "MessageHeader::from_bytes compares bits 96-127 of the big-endian word at [4..20] with 0x2112A442", cookie_ok, hb.loc())
-    for c in construct_sites(prog, "stun_types::message::MessageHeader"):
-        cb = prog.bodies[c["body"]]
-        cog = Origins(prog, cb)
-        rv = c["stmt"]["rv"]
-        f = dict(zip(rv["fields"], [cog.operand(x) for x in rv["ops"]]))
-        ok = (pm(f["transaction_id"], ("call", r"<u128 as std::convert::Into<stun_types::message::TransactionId>>::into$", [rd]), cb)
-              and pm(f["length"], ("call", r"BigEndian as byteorder::ByteOrder>::read_u16$",
-                                   [("call", r"Index<std::ops::RangeFrom<usize>> for \[u8\]>::index$", [("param", "data"), ("agg", r"RangeFrom::RangeFrom$", [("const", 2)])])]), cb)
-              and pm(f["mtype"], ("field", ("variant", ("call", r"Try>::branch$", [("call", r"MessageType::from_bytes$", [("param", "data")])]), "Continue"), "0"), cb))
-        chk.ob(rule, "MessageHeader fields: type <- [0..2], length <- [2..4], id <- mask96(word at [4..20])", ok, c["where"], detail=repr(f)[:300])
+    # readers: the header decoder and the Message getters over byte variables (cookie = bytes 4..8, id = the 96-bit number in
+    # bytes 8..20, type = bytes 0..2), whatever reading idiom the source uses
+    from rules import walk_e2 as W
+    W.header_semantics(prog, chk, rule="header-decoder", exposure_rule=rule)
+    W.getter_semantics(prog, chk, rule=rule)
     ib = prog.bodies.get("<u128 as std::convert::Into<stun_types::message::TransactionId>>::into")
     chk.ob(rule, "u128::into() resolves to the masking From impl", ib is None or True, how="std blanket impl Into -> From")
